@@ -23,6 +23,7 @@ type Ann struct {
 	Kind  string `json:"kind"` // Path | Query | Header | FormField | Body
 	Ref   string `json:"ref"`
 	Alias string `json:"alias,omitempty"`
+	Stray bool   `json:"stray,omitempty"` // carries a property nobody knows ({ note: "stray" }): a warning at most
 }
 
 type Prm struct {
@@ -31,12 +32,13 @@ type Prm struct {
 }
 
 type Route struct {
-	Prefix string   `json:"prefix"`
-	Route  string   `json:"route"`
-	Anns   []Ann    `json:"anns"`
-	Params []Prm    `json:"params"`
-	Rets   []string `json:"rets"`
-	Verb   string   `json:"verb"`
+	Prefix    string   `json:"prefix"`
+	Route     string   `json:"route"`
+	Anns      []Ann    `json:"anns"`
+	Params    []Prm    `json:"params"`
+	Rets      []string `json:"rets"`
+	Verb      string   `json:"verb"`
+	VerbStray bool     `json:"verb_stray,omitempty"` // @Method carries an unknown property
 	// Sibling adds a second, well-formed method to the controller whose route overlaps this one (a route-conflict
 	// warning on the same controller): warnings must never mask errors
 	Sibling bool `json:"sibling,omitempty"`
@@ -314,6 +316,13 @@ func perturbations(b Route) []pert {
 			r.Anns[i].Alias = "al"
 			return true
 		}})
+		ps = append(ps, pert{tag + ".stray-property", func(r *Route) bool {
+			if i >= len(r.Anns) || r.Anns[i].Stray {
+				return false
+			}
+			r.Anns[i].Stray = true
+			return true
+		}})
 		ps = append(ps, pert{tag + ".alias-non-string", func(r *Route) bool {
 			if i >= len(r.Anns) || r.Anns[i].Alias == nonStringAlias {
 				return false
@@ -468,6 +477,23 @@ func perturbations(b Route) []pert {
 		}},
 		pert{"ret.add-third", func(r *Route) bool { r.Rets = append([]string{"int"}, r.Rets...); return len(r.Rets) == 3 }},
 	)
+	ps = append(ps, pert{"verb.stray-property", func(r *Route) bool {
+		if r.VerbStray {
+			return false
+		}
+		r.VerbStray = true
+		return true
+	}})
+	for _, v := range []string{"HEAD", "FOO", "PUT"} {
+		v := v
+		ps = append(ps, pert{"verb->" + v + "+stray-property", func(r *Route) bool {
+			if r.Verb == v || r.VerbStray {
+				return false
+			}
+			r.Verb, r.VerbStray = v, true
+			return true
+		}})
+	}
 	for _, v := range []string{"POST", "DELETE", "PATCH", "HEAD", "OPTIONS", "FOO"} {
 		v := v
 		ps = append(ps, pert{"verb->" + v, func(r *Route) bool {
@@ -486,11 +512,18 @@ func perturbations(b Route) []pert {
 func render(id string, r Route) scen.Unit {
 	sub := func(s string) string { return strings.ReplaceAll(s, "§", id) }
 	m := scen.Method{Name: "Op" + id, Verb: r.Verb, Route: scen.S(sub(r.Route)), Body: "\tpanic(\"never called\")\n"}
+	if r.VerbStray {
+		m.Verb += ", { note: \"stray\" }"
+	}
 	for _, p := range r.Params {
 		m.Params = append(m.Params, scen.Param{Name: p.Name, Type: sub(p.Type)})
 	}
 	for _, a := range r.Anns {
-		if a.Alias == nonStringAlias {
+		if a.Stray && a.Alias == "" {
+			m.Extra = append(m.Extra, fmt.Sprintf("// @%s(%s, { note: \"stray\" })", a.Kind, a.Ref))
+		} else if a.Stray && a.Alias != nonStringAlias {
+			m.Extra = append(m.Extra, fmt.Sprintf("// @%s(%s, { name: %q, note: \"stray\" })", a.Kind, a.Ref, a.Alias))
+		} else if a.Alias == nonStringAlias {
 			m.Extra = append(m.Extra, fmt.Sprintf("// @%s(%s, { name: 5 })", a.Kind, a.Ref))
 		} else if a.Alias != "" {
 			m.Extra = append(m.Extra, fmt.Sprintf("// @%s(%s, { name: %q })", a.Kind, a.Ref, a.Alias))
@@ -567,10 +600,11 @@ func buildCases(tier string) ([]scen.Case, map[string]caseInfo) {
 			rs := r1.clone()
 			rs.Sibling = true
 			add(bi, rs, []string{p.Name, "conflicting-sibling"})
-			if tier != "thorough" {
-				continue
-			}
 			for _, q := range ps[i+1:] {
+				// quick: only pairs of link-level perturbations (annotations and template names); thorough: every pair
+				if tier != "thorough" && !(linkLevel(p.Name) && linkLevel(q.Name)) {
+					continue
+				}
 				r2 := r1.clone()
 				if !q.F(&r2) {
 					continue
@@ -580,6 +614,12 @@ func buildCases(tier string) ([]scen.Case, map[string]caseInfo) {
 		}
 	}
 	return cases, info
+}
+
+// linkLevel: perturbations of annotations and template names other than re-kinding / re-targeting (those are
+// covered one at a time).
+func linkLevel(name string) bool {
+	return (strings.HasPrefix(name, "ann") || strings.HasPrefix(name, "route.") || strings.HasPrefix(name, "prefix.")) && !strings.Contains(name, ".kind->") && !strings.Contains(name, ".retarget->")
 }
 
 // ---- the check ---------------------------------------------------------------------------------------------------
@@ -728,7 +768,7 @@ func Main(tier, replay string) {
 	run.Set("pack_bisections", rn.Bisects.Load())
 	run.Sample(cases[0])
 	run.Sample(cases[len(cases)/2])
-	run.Bound = fmt.Sprintf("6 well-formed base routes x every applicable single perturbation (%s) of annotations, template names, parameters, returns and verb: %d scenarios; every scenario of depth <= 1 also through the real CLI with stale output files", map[string]string{"quick": "depth 1", "thorough": "depth 1 and every pair, depth 2"}[tier], len(cases))
+	run.Bound = fmt.Sprintf("6 well-formed base routes x every applicable single perturbation (%s) of annotations, template names, parameters, returns and verb: %d scenarios; every scenario of depth <= 1 also through the real CLI with stale output files", map[string]string{"quick": "depth 1, and depth 2 for pairs of annotation/template perturbations", "thorough": "depth 1 and every pair, depth 2"}[tier], len(cases))
 	run.Rule = "state = one (base, perturbation set); transition = one run of the real validator (library seam) or of the real CLI; validated = accept/reject decisions compared with the statement's six link rules, plus file-system effects of failing commands"
 	run.Assumptions = []string{"routes on which the rules are silent (primitive bodies, annotations bound to the context parameter, error/map parameters) are run but not judged", "a hard error return counts as rejection"}
 	os.RemoveAll(scratch)
